@@ -38,6 +38,10 @@ CLAIMED["C15"] = ("Receive side: nextFrame rejects a frame whose declared length
   "Assumed: compress/flate (decompressReader, the io.Reader it returns: 0 <= n <= len(p)), the allocator interface contract (C20), the reader's knowledge of the parser state between critical sections (single reader per connection; thread-local ghosts tied to the monitor), message handlers do not touch the reader's private buffers, WriteClose/writeFrame effects (trusted stubs preserving connection state). Signed arithmetic is mathematical: a declared 64-bit length near 2^63 added to a non-empty partial message wraps in the real code (noted in DESIGN.md).",
   "DESIGN.md 4 C15")
 
+CLAIMED["C19"] = ("timer.Async: the same monitor pattern as C05 on asyncMux/asyncList (one drainer, created only by the submitter that makes the list non-empty, hand-over obligation at the go statement, every function taken is asyncList[taken] with submission number == number taken so far, retire exactly when everything appended has been taken, including the cap > 1024 reallocation branch; index safety). TaskPool: thread-modular counter accounting with a thread-local ghost 'units owed': fork returns with the unit handed to the worker it started or still owed by the caller; Go, the worker and the dispatcher loop return every unit they take (capacity is recovered); a worker is started only by an add whose result is < maxConcurrent (bound); New wires the built-in caller.",
+  "Assumed: sync/atomic operations are atomic (their results are arbitrary: other threads interfere); the Go runtime starts each 'go' closure exactly once; channels deliver each sent value at most once; tasks still queued when Stop is called are not decided (schedule dependent); the recover barriers around tasks are structural (inlined), not separately proved; a user-supplied caller runs its argument (trusted).",
+  "DESIGN.md 4 C19")
+
 NA = {
  "C18": "termination of Stop/Shutdown and release of goroutines/descriptors for all histories is liveness + whole-process resource state; no contract within reach of a per-function deductive verifier decides it (DESIGN.md 4 C18)",
 }
